@@ -114,7 +114,7 @@ class PublicKeyX509(PublicKeyX509Base):
         try:
             # ensure recursive parsing
             public_key._certificate.native  # pylint: disable=protected-access,pointless-statement
-        except (ValueError, KeyError, TypeError, AttributeError) as e:
+        except (ValueError, LookupError, TypeError, AttributeError, ArithmeticError) as e:
             six.raise_from(InvalidValue(bytes(der), cls, 'certificate'), e)
 
         return public_key
